@@ -123,6 +123,7 @@ package security
 //@   results cfg, err
 //@   ensures err == nil ==> cfg != nil && fresh(cfg) && cfg.MinVersion == 771
 //@   ensures [C17.tls.verify] err == nil && (t.AllowedCN != "" || t.AllowedHostname != "") ==> cfg.VerifyPeerCertificate != nil
+//@   ensures [C17.tls.exclusive] t.AllowedCN != "" && t.AllowedHostname != "" ==> err != nil      // both requirements at once cannot be honoured by the single check that is installed: refused, never silently reduced to one of them
 //@   modifies nothing
 
 // ServerConfig: a trusted CA (or the explicit switch) makes the server require and verify a client
